@@ -321,7 +321,7 @@ func d30Probe() bool {
 
 func streamAlias(seed uint64, n int) (*Summary, error) {
 	sum := newSummary("alias", seed)
-	sum.Rule = "engine-stream cases with nested slice defaults and PostTransforms that modify the destination in place, one case in four the dedicated shape Validate(empty [][]T) on Slice(Slice(prim)).Default(nested); each is run twice on ONE schema object with deep snapshots of the input before/after; non-trivial = the schema has a default, catch or PostTransform; distinct = distinct case line"
+	sum.Rule = "engine-stream cases with nested slice defaults and PostTransforms that modify the destination in place, one case in four the dedicated shape Validate(empty [][]T) on Slice(Slice(prim)).Default(nested); each is run twice on ONE schema object with deep snapshots of the input before/after, in every other case with the first result handed back through the Collect helpers in between; non-trivial = the schema has a default, catch or PostTransform; distinct = distinct case line"
 	root := rng.New(seed)
 	distinct := map[string]bool{}
 	sum.Evaluations++
